@@ -1,6 +1,6 @@
 (* Wire glue for C06 (ops 6xx): universal value -> reader / chunk-list model and record spec.
    Evaluated both by vm_compute (cases.v) and by the extracted OCaml driver. *)
-From Fzf Require Import Prelude Val RecordSpec ReaderModel ChunkModel InputModel.
+From Fzf Require Import Prelude Val FieldSpec RecordSpec RecordNthSpec ReaderModel ChunkModel InputModel.
 Open Scope Z_scope.
 
 Definition as_nats (v : val) : list nat := map as_nat (as_list v).
@@ -84,6 +84,24 @@ Definition d_session (a : val) : val :=
 Definition d_session_views (a : val) : val :=
   vviews (session_views (as_bool (arg a 0)) (as_nat (arg a 1)) (as_nat (arg a 2)) (as_strs (arg a 3))).
 
+(* 611 spec: [read0, tac, hl, tail, delim, scope, query, stream] -> query_listing (characters are runes)
+   delim = [] (AWK) | [sep];  scope = [0] whole record | [1, [expr...]] --nth | [2, [expr...]] --with-nth;
+   expr = [0, n] | [1, a?, b?] with x? = [] or [x] *)
+Definition as_optz6 (v : val) : option Z :=
+  match as_list v with [] => None | x :: _ => Some (as_int x) end.
+Definition as_fexpr6 (v : val) : fexpr :=
+  if as_int (arg v 0) =? 0 then FIdx (as_int (arg v 1)) else FRange (as_optz6 (arg v 1)) (as_optz6 (arg v 2)).
+Definition as_fdelim (v : val) : fdelim :=
+  match as_list v with [] => FAwk | x :: _ => FLit (as_str x) end.
+Definition as_scope (v : val) : scope :=
+  let k := as_int (arg v 0) in
+  if k =? 1 then SNth (map as_fexpr6 (as_list (arg v 1)))
+  else if k =? 2 then SWithNth (map as_fexpr6 (as_list (arg v 1)))
+  else SWhole.
+Definition d_query_listing (a : val) : val :=
+  VL (map vitem (query_listing (as_bool (arg a 0)) (as_bool (arg a 1)) (as_nat (arg a 2)) (as_nat (arg a 3))
+                               (as_fdelim (arg a 4)) (as_scope (arg a 5)) (as_str (arg a 6)) (as_str (arg a 7)))).
+
 Definition dispatch_record (op : Z) (a : val) : option val :=
   if op =? 601 then Some (d_feed a)
   else if op =? 602 then Some (d_split a)
@@ -95,4 +113,5 @@ Definition dispatch_record (op : Z) (a : val) : option val :=
   else if op =? 608 then Some (d_filter_listing a)
   else if op =? 609 then Some (d_session a)
   else if op =? 610 then Some (d_session_views a)
+  else if op =? 611 then Some (d_query_listing a)
   else None.
